@@ -153,7 +153,7 @@ PROPS = {
         'must_observe': ['roundtrips_ok', 'print_comparisons', 'unrepresentable_keys_refused', 'top_level_maps_compared', 'non_map_top_levels_refused'],
     },
     'C18': {
-        'scale': {'quick': 1.5, 'thorough': 1},
+        'scale': {'quick': 0.6, 'thorough': 1},
         'legs': {'thorough': ['miri', 'tsan']},
         'level': 'fault_enumeration',
         'technique': 'channel differential + writer fault enumeration (every write call, byte offsets, 4 failure kinds, short writes) + purity digest + concurrent-vs-sequential comparison on a shared instance; Miri and ThreadSanitizer legs in the thorough tier',
